@@ -177,6 +177,7 @@ func cmdReplay(gen string, windows int, seed int64, out string) int {
 	defer fh.Close()
 	t := NewTracer(out)
 	r := NewRng(seed)
+	replaySeed = seed
 	sc := bufio.NewScanner(fh)
 	sc.Buffer(make([]byte, 1<<20), 1<<26)
 	for sc.Scan() {
